@@ -13,6 +13,7 @@ import (
 	"fmt"
 	"go/types"
 	"sort"
+	"strings"
 
 	"golang.org/x/tools/go/packages"
 	"golang.org/x/tools/go/ssa"
@@ -28,8 +29,9 @@ var queryInterfaces = map[string][]string{
 // queryTypes: concrete types outside those interfaces whose exported methods
 // are all read-only queries over an immutable structure built once.
 var queryTypes = map[string]string{
-	"SolidMux":  "the containment multiplexer answers for the solids it was built from",
-	"CoordTree": "the point tree is built once by NewCoordTree and only searched afterwards",
+	"SolidMux":   "the containment multiplexer answers for the solids it was built from",
+	"CoordTree":  "the point tree is built once by NewCoordTree and only searched afterwards",
+	"Polynomial": "a coefficient list; evaluation and root finding leave the caller's coefficients alone",
 }
 
 // meshMutators: methods of Mesh that are documented to modify the mesh (not
@@ -113,6 +115,23 @@ func (c *Ctx) runQueryPurityFor(eng *effEngine, pkgs []*packages.Package, rule s
 				if !types.Implements(ptr, it.t) && !types.Implements(named, it.t) {
 					continue
 				}
+				if _, all := queryInterfaces["toolbox3d"]; all || qAllExported {
+					// every exported method of a type that answers queries, not only
+					// the interface's own methods (Optimize, Solids, ...)
+					ms := types.NewMethodSet(ptr)
+					for i := 0; i < ms.Len(); i++ {
+						f, _ := ms.At(i).Obj().(*types.Func)
+						if f == nil || !f.Exported() || seen[f] || qMutators[n][f.Name()] {
+							continue
+						}
+						fn := c.Prog.FuncValue(f)
+						if fn == nil || fn.Blocks == nil {
+							continue
+						}
+						seen[f] = true
+						targets = append(targets, target{fn, "exported method of a type that implements " + it.name, objName(f)})
+					}
+				}
 				for i := 0; i < it.t.NumMethods(); i++ {
 					m := it.t.Method(i)
 					obj, _, _ := types.LookupFieldOrMethod(ptr, true, m.Pkg(), m.Name())
@@ -130,8 +149,8 @@ func (c *Ctx) runQueryPurityFor(eng *effEngine, pkgs []*packages.Package, rule s
 				}
 			}
 			// query-only concrete types
-			if why, isQ := queryTypes[n]; isQ && (p.PkgPath == repoMod+"/model3d" || p.PkgPath == repoMod+"/model2d") {
-				if _, all := queryInterfaces["toolbox3d"]; all {
+			if why, isQ := queryTypes[n]; isQ && (qAllExported || queryInterfaces["toolbox3d"] != nil) && (p.PkgPath == repoMod+"/model3d" || p.PkgPath == repoMod+"/model2d" || p.PkgPath == repoMod+"/numerical") {
+				if _, all := queryInterfaces["toolbox3d"]; all || qAllExported {
 					ms := types.NewMethodSet(ptr)
 					for i := 0; i < ms.Len(); i++ {
 						f, _ := ms.At(i).Obj().(*types.Func)
@@ -178,8 +197,11 @@ func (c *Ctx) runQueryPurityFor(eng *effEngine, pkgs []*packages.Package, rule s
 			}
 			switch ef.root.kind {
 			case rkParam:
-				if ef.root.idx != 0 || t.fn.Signature.Recv() == nil {
+				if t.fn.Signature.Recv() == nil {
 					continue
+				}
+				if ef.root.idx != 0 && !isRayParam(t.fn, ef.root.idx) {
+					continue // out-parameters, random sources, scratch maps: the caller's business
 				}
 			case rkGlobal:
 				if isSyncGlobal(ef.root.name) {
@@ -207,12 +229,41 @@ func (c *Ctx) runQueryPurityFor(eng *effEngine, pkgs []*packages.Package, rule s
 			c.except(rule, key, t.fn.Pos(), reason)
 			continue
 		}
+		if ef.root.kind == rkParam && ef.root.idx != 0 {
+			c.bad(rule, key, t.fn.Pos(), detail+" (the query's own ray is modified: callers reuse one ray for several objects and samples)")
+			continue
+		}
 		if c.memoMode {
 			c.bad(rule, key, t.fn.Pos(), detail+" (a query that stores into its receiver keeps a cache; it goes stale when a field it was computed from is changed, and it races unless synchronised)")
 		} else {
 			c.bad(rule, key, t.fn.Pos(), detail+" (concurrent queries would race)")
 		}
 	}
+}
+
+// qAllExported: also for runs over a subset of the interfaces (C04, C17, C20)
+var qAllExported = false
+
+// qMutators: exported methods of query types that are documented to modify
+// their receiver (not safe for concurrent use by contract).
+var qMutators = map[string]map[string]bool{
+	"Mesh":    {"Add": true, "AddMesh": true, "AddQuad": true, "Remove": true},
+	"RectSet": {"Add": true, "AddRectSet": true, "Remove": true, "RemoveRectSet": true},
+}
+
+// isRayParam: parameter idx of fn is a *Ray of the library - the query itself,
+// which a query method must leave as it found it (callers reuse one ray for
+// several objects and samples).
+func isRayParam(fn *ssa.Function, idx int) bool {
+	if idx < 0 || idx >= len(fn.Params) {
+		return false
+	}
+	pt, ok := fn.Params[idx].Type().(*types.Pointer)
+	if !ok {
+		return false
+	}
+	n, ok := pt.Elem().(*types.Named)
+	return ok && n.Obj().Name() == "Ray" && n.Obj().Pkg() != nil && strings.HasPrefix(n.Obj().Pkg().Path(), repoMod+"/model")
 }
 
 func qException(name string, ef effect) (string, bool) {
